@@ -228,6 +228,7 @@ pub fn run(ctx: &Ctx) {
     let adv = pool(&["degenerate"]);
     let nodes = ctx.tier.pick(5, 6);
     sweep(ctx, "names {a,b,c}, all assignments", &plain, 3, &TreeParams { min_nodes: 0, max_nodes: nodes, max_decorated: 1, root_from_subset: true, shard: (0, 1) });
+    sweep(ctx, "names {a,b,c}, 6 nodes, undecorated, root r", &plain, 3, &TreeParams { min_nodes: 6, max_nodes: 6, max_decorated: 0, root_from_subset: false, shard: (0, 1) });
     sweep(ctx, "concatenation names", &concat, 3, &TreeParams { min_nodes: 1, max_nodes: 4, max_decorated: 1, root_from_subset: false, shard: (0, 1) });
     sweep(ctx, "concatenation names, 4-subsets", &concat, 4, &TreeParams { min_nodes: 3, max_nodes: 5, max_decorated: 0, root_from_subset: false, shard: (0, 1) });
     for set in super::c04::separator_sets() {
